@@ -8,7 +8,7 @@
    output buffer is a hypothesis (a codec property); the decompression scheduler
    is the SchedX area.  Only statements; proofs are [exact]. *)
 From Coq Require Import List NArith Arith Bool Lia.
-From LBZ Require Import SchedC.SchedCIface Gen.SchedCTab SchedC.Pool SchedC.SchedC SchedC.SchedCInv SchedC.SchedCMem.
+From LBZ Require Import SchedC.SchedCIface Gen.SchedCTab SchedC.Pool SchedC.SchedC SchedC.SchedCInv SchedC.SchedCMemDef SchedC.SchedCMem.
 Import ListNotations.
 Local Open Scope N_scope.
 
